@@ -54,9 +54,11 @@ func VHC03Faults() {
 		}
 	}
 	var out vh.Out
-	var lens []int // output length whenever the reader is asked for an item
-	ds := &vh.DocStream{Items: items}
-	ds.OnRead = func(item int) { lens = append(lens, out.Len()) }
+	type req struct{ pos, outLen int }
+	var reqs []req // output length whenever the reader is asked for more input
+	// how items and errors are packed into Read calls is part of the quantifier
+	ds := &vh.DocStream{Items: items, Mode: vh.Choose("mode", 4)}
+	ds.OnRead = func(item int) { reqs = append(reqs, req{item, out.Len()}) }
 	_, err := lang.EvalProgram(c03Prog, []lang.InputFile{{Name: "in.json", Reader: ds}}, nil, &out, false)
 	kcls := legal(err, "EvalProgram")
 	vh.Reach("stream evaluated")
@@ -71,16 +73,17 @@ func VHC03Faults() {
 		vh.Assert(je.FileName == "in.json", "C03: the JSON error names the file")
 		vh.Assert(out.String() == want, "C03: every complete value before the fault is processed normally, nothing after it, no rule on the partial value")
 	}
-	// incremental processing: whenever the reader is asked for item i, the output of
-	// all complete values before i is already written (no read-ahead, no batching)
-	exp := 0
-	for i, l := range lens {
-		if i > 0 && i-1 < len(items) && (bad < 0 || i-1 < bad) {
-			_, o, _ := c03Prefix(items, i-1)
+	// incremental processing: whenever the reader is asked for more input, the output of
+	// every complete value it has already delivered is written (no read-ahead, no
+	// batching) and nothing else
+	for _, r := range reqs {
+		exp := 0
+		for i := 0; i < r.pos && i < len(items) && (bad < 0 || i < bad); i++ {
+			_, o, _ := c03Prefix(items, i)
 			exp += len(o)
 		}
-		if bad < 0 || i <= bad {
-			vh.Assert(l == exp, "C03: output of a value is complete before the next read is requested")
+		if bad < 0 || r.pos <= bad {
+			vh.Assert(r.outLen == exp, "C03: output of every delivered value is complete before more input is requested")
 		}
 	}
 }
@@ -103,7 +106,7 @@ func VHC03Files() {
 			f, _, _ := c03Item("x", fk, "")
 			items = append(items, f)
 		}
-		return &vh.DocStream{Items: items}
+		return &vh.DocStream{Items: items, Mode: vh.Choose("mode", 4)}
 	}
 	var out vh.Out
 	files := []lang.InputFile{{Name: "one", Reader: mk("a", b1, faultIn == 1)}, {Name: "two", Reader: mk("c", b2, faultIn == 2)}}
